@@ -52,6 +52,7 @@ type tcase struct {
 	Mode    string  `json:"mode"`  // "" (free-running goroutines) | "inject"
 	Level   string  `json:"level"` // "cesium" | "domain"
 	KFrac   float64 `json:"kfrac"`
+	Iters   int     `json:"iters"` // mode "stress": number of free-running repetitions of the scenario
 }
 
 type chanObs struct {
@@ -78,6 +79,7 @@ type result struct {
 	Points int    `json:"points"`
 	Target int    `json:"target"`
 	Order  []int  `json:"order"` // serial thread order whose outcome is reported in Serial
+	Iters  int    `json:"iters"` // mode "stress": repetitions executed (stops at the first discrepancy)
 }
 
 func idxKey(g uint32) uint32  { return g*10 + 1 }
@@ -422,6 +424,9 @@ func runCase(c tcase) result {
 	}
 	if c.Mode == "inject" {
 		return runInjectCase(c)
+	}
+	if c.Mode == "stress" {
+		return runStressCase(c)
 	}
 	r := result{ID: c.ID}
 	r.Conc = runOnce(c, true, nil, nil)
